@@ -497,17 +497,22 @@ func buildContractState(tx UpdateStateTx, fces []consensus.FileContractElementDi
 				})
 				log.Debug("revised contract", zap.Uint64("current", fce.FileContract.RevisionNumber), zap.Uint64("revised", rev.RevisionNumber))
 			}
-		case resolved && valid:
-			state.Successful = append(state.Successful, types.FileContractID(fce.ID))
-			log.Debug("successful contract")
-		case resolved && !valid:
-			successful := fce.FileContract.MissedHostPayout().Cmp(fce.FileContract.ValidHostPayout()) >= 0
+			if !resolved {
+				break
+			}
+			// a contract can be revised and proven in the same block (the
+			// block at its window start), the diff then carries both the
+			// revision and the resolution
+			fallthrough
+		case resolved:
+			// a missed resolution that pays the host in full is successful
+			successful := valid || fce.FileContract.MissedHostPayout().Cmp(fce.FileContract.ValidHostPayout()) >= 0
 			if successful {
 				state.Successful = append(state.Successful, types.FileContractID(fce.ID))
 			} else {
 				state.Failed = append(state.Failed, types.FileContractID(fce.ID))
 			}
-			log.Debug("expired contract", zap.Bool("successful", successful))
+			log.Debug("resolved contract", zap.Bool("valid", valid), zap.Bool("successful", successful))
 		default:
 			return StateChanges{}, fmt.Errorf("unexpected contract state (resolved: %v) (valid: %v) (created: %v) (revised: %v) (contractID: %v)", resolved, valid, created, rev != nil, fce.ID)
 		}
